@@ -1166,6 +1166,10 @@ static Boolean DecodeIntelPseudo_LayoutMult(
             IncCodeFillBy(&pCtx->CurrCodeFill, &Diff, pCtx);
             break;
         }
+        case DSNone:
+            /* nothing has been laid out so far (the group only consists of
+               DUPs with a count <= 0): nothing to replicate */
+            break;
         default:
             Result = False;
             goto func_exit;
